@@ -61,6 +61,20 @@ status string, a flag computed from the marker comparison are all the same paths
 into may be bound elsewhere too (None in the handler); every read of it must see the decoded content on every
 feasible path.
 
+Sixth pass.  The stand-in for "no state file" may be any object with an identity of its own, not only a constant: a
+class-level sentinel (`_NO_FILE = Sentinel(..)` read as self.X / cls.X / type(self).X / Class.X), a module-level one
+(`_MISSING = object()`, also imported or aliased), an Enum member, a local `missing = object()`; bound in the
+FileNotFoundError handler (also of an expanded helper that returns it) or before the try, and tested afterwards with
+is / is not / == / != / in (..), either way round, as guard clause or nested.  _kit_c13.Sentinels gives such an expression
+a Token when it provably denotes one object (single binding, never stored to anywhere in the program, ordinary class),
+const_eval decides identity / equality between tokens and between an object token and a constant, and RegionPaths
+prunes the branches this decides -- the decoded file is never identical to an object the program made, so "is the
+sentinel" is exactly "open() failed" and "is not the sentinel" exactly "the file was decoded".  A read of the local
+that only asks which object it is (operand of such a comparison, isinstance, truth test) is not a read of the file's
+content (C13.d).  A file that decodes to None stays possible on the paths that decoded the file: `content is None`
+is not decided there, so None as the stand-in is still reported (a file containing null would be taken for a fresh
+context).
+
 Outside the property's fault model (crash points and clean stops), reported as a
 note only: if `_store()` raises (disk full, EIO) after `sequence_number_persisted`
 was advanced, the in-memory bound stays ahead of the file and the next chunk-1
@@ -1534,3 +1548,32 @@ R.seed("C13.b", F_, "            self.sequence_number_chunksize = min(\n        
        "            doubled = self.sequence_number_chunksize * 2\n            limit = self.sequence_number_chunksize_limit\n            self.sequence_number_chunksize = limit if limit < doubled else doubled - limit\n",
        "conditional-expression spelling of the cap whose other arm can reach 0 or below")
 R.seed("C13.b", F_, "        sequence_number_chunksize_limit=10000,", "        sequence_number_chunksize_limit=0,", "limit 0: the capped chunk collapses to 0 and the bound stops advancing")
+
+# sixth pass: "no file" represented by an object with an identity of its own (module-level sentinel, local object())
+# instead of the handler / a boolean flag -- the paths are decided by _kit_c13.Sentinels + const_eval on tokens
+_LOAD_SENTINEL = (
+    '%s'
+    '        try:\n'
+    '            with open(os.path.join(self.basedir, "sequence.json")) as f:\n'
+    '                sequence = json.load(f)\n'
+    '        except FileNotFoundError:\n'
+    '            %s\n'
+    '        if %s:\n'
+    '            self.sender_sequence_number = 0\n'
+    '            self.recipient_replay_window.initialize_empty()\n'
+    '            self.replay_window_persisted = %s\n'
+    '            return\n'
+    '        self.sender_sequence_number = int(sequence["next-to-send"])\n'
+    '        received = sequence["received"]\n'
+    '        if received == "unknown":\n'
+    '            self.replay_window_persisted = False\n'
+    '            return\n' + _IFP_TRY.replace("\n            ", "\n        ").replace("            try:", "        try:", 1) +
+    '        self.replay_window_persisted = True\n'
+    '\n'
+)
+R.seed("C13.g", F_, _LOAD_TAIL_OLD, _LOAD_SENTINEL % ("", "sequence = PRESENT_BUT_NO_VALUE_YET", "sequence is not PRESENT_BUT_NO_VALUE_YET", "True"),
+       "module-level sentinel for the missing file, tested the wrong way round: an existing file is treated as a fresh context")
+R.seed("C13.g", F_, _LOAD_TAIL_OLD, _LOAD_SENTINEL % ("        missing = object()\n        sequence = missing\n", "pass", "sequence is missing or sequence is None", "True"),
+       "local object() sentinel bound before the try; a file containing null is taken for a missing one as well (empty window for an existing file)")
+R.seed("C13.e", F_, _LOAD_TAIL_OLD, _LOAD_SENTINEL % ("", "sequence = PRESENT_BUT_NO_VALUE_YET", "sequence is PRESENT_BUT_NO_VALUE_YET", "False"),
+       "sentinel spelling, fresh context starts with the flag false: strike-outs are never recorded as unknown")
